@@ -569,6 +569,14 @@ func runC05Start(c *Ctx, conv map[*ssa.Function]bool) {
 				if P == nil {
 					continue // current position (no snapshot involved)
 				}
+				if u, ok := P.(*ssa.UnOp); ok && u.Op == token.MUL {
+					if pfa, ok := u.X.(*ssa.FieldAddr); ok && core.FieldName(pfa.X.Type(), pfa.Field) == "pos" {
+						// toSQLPosition(t.pos) is getCurrentPosition() written out: the cursor read at this very point
+						if u.Block() == st.Block() {
+							continue
+						}
+					}
+				}
 				// the token stored in the same struct
 				var T ssa.Value
 				for _, ref := range core.Referrers(fa.X) {
